@@ -430,6 +430,62 @@ class SharedMatrix(SubCheck):
         return None
 
 
+class PointSpellings(SubCheck):
+    """the legal spellings of one point list (separators: comma, blanks, tabs, newlines; a minus sign may start the next
+    number without any separator; exponents; plus signs; leading / trailing blanks) all denote the same points"""
+    name = "point-spellings"
+    single_outcome_ok = True
+    PTS = [(10.0, 20.0), (-30.0, 40.0), (5.5, -8.0), (-7.0, -9.0)]
+    SPELL = ["10,20 -30,40 5.5,-8 -7,-9", "10,20-30,40 5.5-8-7-9", "10 20 -30 40 5.5 -8 -7 -9", "10,20,-30,40,5.5,-8,-7,-9",
+             " 10,20\n-30,40\t5.5,-8 -7,-9 ", "1e1,2e1 -3e1,4E1 5.5,-8 -7,-9", "+10,+20 -30,+40 5.5,-8 -7,-9",
+             "10.0,20.0-30.0,40.0 5.5-8.0-7-9", "10 , 20 , -30 , 40 , 5.5 , -8 , -7 , -9", "10,20\r\n-30,40\r\n5.5,-8\r\n-7,-9",
+             "1.0E+1,20 -30,4.0e+1 55e-1,-8 -7,-9"]
+
+    def __init__(self, svg):
+        self.svg = svg
+        self.p = Product(range(len(self.SPELL)), ["polyline", "polygon"], ["positional", "points=", "dict", "parsed"])
+
+    def size(self):
+        return len(self.p)
+
+    def case(self, i):
+        si, kind, how = self.p[i]
+        return dict(spelling=self.SPELL[si], kind=kind, how=how)
+
+    def run(self, case):
+        import io
+        out = Outcome()
+        svg = self.svg
+        cls = svg.Polyline if case["kind"] == "polyline" else svg.Polygon
+        s = case["spelling"]
+        try:
+            if case["how"] == "positional":
+                sh = cls(s)
+            elif case["how"] == "points=":
+                sh = cls(points=s)
+            elif case["how"] == "dict":
+                sh = cls({"points": s})
+            else:
+                from xml.sax.saxutils import quoteattr
+                doc = '<svg xmlns="http://www.w3.org/2000/svg"><%s points=%s/></svg>' % (case["kind"], quoteattr(s))
+                sh = [e for e in svg.SVG.parse(io.StringIO(doc)).elements() if isinstance(e, cls)][0]
+            got = [(float(p.x), float(p.y)) for p in sh.points]
+        except Exception as e:  # noqa
+            out.fail("%s from the point list %r (%s) raised %s" % (case["kind"], s, case["how"], type(e).__name__), self.PTS, repr(e),
+                     kind="point-spelling", **case)
+            return out
+        out.traces += 1
+        out.nontrivial.append((s, case["kind"], case["how"]))
+        out.outcome = got == self.PTS
+        if got != self.PTS:
+            out.fail("%s from the point list %r (%s) has points %r" % (case["kind"], s, case["how"], got), self.PTS, got,
+                     kind="point-spelling", **case)
+        return out
+
+    def unit_test(self, case):
+        return None
+
+
 class AutoRadius(SubCheck):
     """a rect with exactly one corner radius given: the other one is the *used* value of the given one (SVG 1.1 and 2
     agree on that, whatever a percentage refers to), so both corner radii are equal unless a half-size clamps one"""
@@ -541,7 +597,7 @@ def refused_check(svg):
 
 
 def build(tier, seed, svg):
-    return [Shapes(svg, tier), ShapesMag(svg, tier), AutoRadius(svg), SharedMatrix(svg), stale_check(svg, tier), refused_check(svg)]
+    return [Shapes(svg, tier), ShapesMag(svg, tier), AutoRadius(svg), PointSpellings(svg), SharedMatrix(svg), stale_check(svg, tier), refused_check(svg)]
 
 
 def m_round_direction(d):
